@@ -390,6 +390,8 @@ def cases(quick):
         for b2 in KEYS:
             if a < b2:
                 out.append({"name": f"keys-{a}-{b2}", "reqs": [dict(G, key=a), dict(G, key=b2), dict(G, key=a)], "peer": ["exact"], "faults": []})
+                # both connections idle in the pool (possibly across a keep-alive sweep), then the second key again
+                out.append({"name": f"keys-{a}-{b2}-{b2}", "reqs": [dict(G, key=a), dict(G, key=b2), dict(G, key=b2)], "peer": ["exact"], "faults": []})
     return out
 
 
